@@ -96,6 +96,7 @@ type Proxy struct {
 	logger            *zap.Logger
 	cluster           *proxycore.Cluster
 	sessionsMu        *sync.RWMutex
+	createSessionMu   sync.Mutex
 	sessions          map[sessionKey]*proxycore.Session // Cache sessions per protocol version, compression, keyspace
 	mu                *sync.Mutex
 	isConnected       bool
@@ -335,25 +336,32 @@ func (p *Proxy) handle(conn net.Conn) {
 }
 
 func (p *Proxy) maybeCreateSession(version primitive.ProtocolVersion, keyspace, compression string) (*proxycore.Session, error) {
-	p.sessionsMu.RLock()
-	defer p.sessionsMu.RUnlock()
+	key := sessionKey{version: version, keyspace: keyspace, compression: compression}
+	if s, ok := p.lookupSession(key); ok {
+		return s, nil
+	}
+	// Sessions are created one at a time so that a session isn't connected twice for the same key. The sessions lock
+	// isn't held while connecting: that can take a while and the other clients' requests need it to find their sessions.
+	p.createSessionMu.Lock()
+	defer p.createSessionMu.Unlock()
 	return p.maybeCreateSessionUnlocked(version, keyspace, compression)
 }
 
 func (p *Proxy) findSession(version primitive.ProtocolVersion, keyspace, compression string) (*proxycore.Session, error) {
-	p.sessionsMu.RLock()
-	defer p.sessionsMu.RUnlock()
-	key := sessionKey{version: version, keyspace: keyspace, compression: compression}
-	if s, ok := p.sessions[key]; ok {
-		return s, nil
-	} else {
-		return p.maybeCreateSessionUnlocked(version, keyspace, compression)
-	}
+	return p.maybeCreateSession(version, keyspace, compression)
 }
 
+func (p *Proxy) lookupSession(key sessionKey) (s *proxycore.Session, ok bool) {
+	p.sessionsMu.RLock()
+	defer p.sessionsMu.RUnlock()
+	s, ok = p.sessions[key]
+	return s, ok
+}
+
+// maybeCreateSessionUnlocked is called with createSessionMu held.
 func (p *Proxy) maybeCreateSessionUnlocked(version primitive.ProtocolVersion, keyspace, compression string) (*proxycore.Session, error) {
 	key := sessionKey{version: version, keyspace: keyspace, compression: compression}
-	if cachedSession, ok := p.sessions[key]; ok {
+	if cachedSession, ok := p.lookupSession(key); ok {
 		return cachedSession, nil
 	} else {
 		sess, err := proxycore.ConnectSession(p.ctx, p.cluster, proxycore.SessionConfig{
@@ -373,7 +381,9 @@ func (p *Proxy) maybeCreateSessionUnlocked(version primitive.ProtocolVersion, ke
 			return nil, err
 		}
 
+		p.sessionsMu.Lock()
 		p.sessions[key] = sess
+		p.sessionsMu.Unlock()
 		return sess, nil
 	}
 }
